@@ -16,6 +16,134 @@ def _it(cx, port):
     return p, c, {m.name: m for m in c.body if isinstance(m, ast.FunctionDef)}
 
 
+def _py_rows_model(cx):
+    """get_row_simple of the Python reader evaluated on every text of at most N characters over {letter, LF, CR} delivered by a stream
+    that hands out at most chunk_size characters per read (chunk sizes 1..3): the rows returned until the first None must be the
+    lines of the text (LF, CR and CRLF each end a line; a non-empty unterminated tail is the last row), NL must count them, and a
+    further call must return None again.  (ok, detail, scenarios) - or None when the reader is outside the abstract interpreter.
+    The result is computed once per run."""
+    return _py_rows_model_kind(cx, 'simple')
+
+
+def _rfc_records(pieces):
+    """the records of RFC-4180 mode: a line with an odd number of double quotes opens a record that extends to the next such line (or the end)"""
+    out, i = [], 0
+    while i < len(pieces):
+        rec = [pieces[i]]
+        if pieces[i].count('"') % 2 == 1:
+            i += 1
+            while i < len(pieces):
+                rec.append(pieces[i])
+                if pieces[i].count('"') % 2 == 1:
+                    break
+                i += 1
+        i += 1
+        out.append('\n'.join(rec))
+    return out
+
+
+def _py_rows_model_kind(cx, kind):
+    memo = '_py_rows_result_' + kind
+    if hasattr(cx, memo):
+        return getattr(cx, memo)
+    import itertools
+    import re as _re
+    from .. import absexec as AX
+    p, c, ms = _it(cx, 'py')
+    res = None
+    grs = ms.get('get_row_simple' if kind == 'simple' else 'get_row_rfc')
+    maxlen = (5 if getattr(cx, 'tier', 'quick') == 'thorough' else 4) if kind == 'simple' else (5 if getattr(cx, 'tier', 'quick') == 'thorough' else 3)
+    alphabet = 'a\n\r' if kind == 'simple' else 'a"\n\r'
+    n = 0
+    bad = None
+    import sys as _sys
+    old_limit = _sys.getrecursionlimit()
+    _sys.setrecursionlimit(max(old_limit, 15000))      # the interpreter's own frames: ~15 per analysed call level
+    try:
+        if grs is None:
+            raise Undecided('get_row_simple not found', c)
+        # every short text; and lines longer than every integer constant the reader's code mentions (thresholds of buffering strategies)
+        consts = [x.value for m_ in ms.values() for x in ast.walk(m_) if isinstance(x, ast.Constant) and isinstance(x.value, int) and not isinstance(x.value, bool) and 3 < x.value <= 1500]
+        consts += [v for v in p.module_consts('rbql_csv').values() if isinstance(v, int) and not isinstance(v, bool) and 3 < v <= 1500]
+        long_len = max((max(consts) if consts else 16) + 3, 150)
+        texts = [''.join(chars) for ln in range(0, maxlen + 1) for chars in itertools.product(alphabet, repeat=ln)]
+        if kind == 'simple':
+            texts += ['a' * long_len + '\nb', 'a' * (2 * long_len + 1) + '\r\n' + 'b' * long_len]
+        else:
+            extras = ['"a\nb\nc\nd"\ne', 'a"\r\n\r\n"b\r\nc', '""\n"\n\n', '"\n"\r\na', '"\r\n"\r\n"\r\n"\r\n', '"\r"\r\n\ra']
+            texts = [t_ for t_ in texts if '"' in t_] + extras
+        for text in texts:
+            if True:
+                pieces = _re.split('\r\n|\r|\n', text)
+                if pieces[-1] == '':
+                    pieces.pop()
+                n_lines = len(pieces)
+                if kind == 'rfc':
+                    pieces = _rfc_records(pieces)
+                for chunk_size in ((1, 2, 3) if len(text) <= maxlen else ((1, 2) if kind == 'simple' else tuple(range(1, len(text) + 1)))):
+                    selfv, stream = AX.Abs('Self'), AX.Abs('Stream')
+                    pos = [0]
+                    init = {'buffer': '', 'exhausted': False, 'stream': stream, 'chunk_size': chunk_size, 'NL': 0, 'utf8_bom_removed': False, 'encoding': 'utf-8', 'detected_line_separator': '\n', 'comment_prefix': None}
+
+                    def on_attr(ex, node, obj, attr, init=init):
+                        if obj is selfv and attr in init:
+                            return init[attr]
+                        return AX.NOT_HANDLED
+
+                    def on_call(ex, node, fname, recv, args, stream=stream, pos=pos, text=text):
+                        short = node.func.attr if isinstance(node.func, ast.Attribute) else fname.split('.')[-1]
+                        if recv is stream and short == 'read':
+                            k = args[0] if args and isinstance(args[0], int) and args[0] > 0 else len(text)
+                            out = text[pos[0]:pos[0] + k]
+                            pos[0] += len(out)
+                            return out
+                        if short == 'remove_utf8_bom' and args:
+                            return args[0]
+                        return AX.NOT_HANDLED
+                    ex = AX.Explorer(p, 'rbql_csv', on_call=on_call, on_attr=on_attr, max_choices=1, max_steps=400000)
+                    ex.cls = 'CSVRecordIterator'
+                    ex.max_depth = 120
+                    ex._script, ex._pos, ex.steps, ex.depth = [], 0, 0, 0
+                    ex.run = AX.Run()
+                    rows = []
+                    try:
+                        for _ in range(len(pieces) + 2):
+                            ex.steps, ex.depth = 0, 0
+                            rows.append(ex.call_fd(grs, [selfv]))
+                    except AX.DepthBound:
+                        if len(text) <= maxlen:
+                            raise
+                        # the short inputs need a handful of nested calls; here the nesting grew past 120 on a line that takes ~150 reads
+                        bad = 'input of a {}-character line read {} character(s) at a time: the reader nests one call per read (more than 120 calls deep here), so a line that takes more reads than the interpreter\'s recursion limit (1000 by default) fails with RecursionError instead of being returned'.format(len(pieces[0]), chunk_size)
+                        break
+                    n += 1
+                    desc = 'input {} read {} character(s) at a time'.format(repr(text) if len(text) <= 12 else 'of a {}-character line, a line break and more text'.format(len(pieces[0])), chunk_size)
+                    got = rows[:len(pieces)]
+                    if got != pieces or rows[len(pieces):] != [None, None]:
+                        first_none = rows.index(None) if None in rows else len(rows)
+                        short_ = lambda rs: [r_ if not isinstance(r_, str) or len(r_) <= 12 else '<{} characters>'.format(len(r_)) for r_ in rs]   # noqa: E731
+                        bad = '{}: the rows are {!r} instead of {!r}{}'.format(desc, short_(rows[:first_none]), short_(pieces), '' if rows[len(pieces):] == [None, None] or got != pieces else ' (and the end of input is not reported as None on every further call)')
+                        break
+                    nl = ex.run.state.get((selfv.uid, 'NL'), 0)
+                    if nl != n_lines:
+                        bad = '{}: the input has {} lines but the line counter NL is {}'.format(desc, n_lines, nl)
+                        break
+                if bad:
+                    break
+            if bad:
+                break
+        res = (bad is None, bad or ('rows = lines of the input for every text of at most {} characters over letter/LF/CR and chunk sizes 1-3' if kind == 'simple' else 'records = lines grouped by quote parity for every text of at most {} characters over letter/quote/LF/CR and chunk sizes 1-3').format(maxlen), n)
+    except (Undecided, AX.Cut, AX._NeedChoice, AX.Raised, KeyError, IndexError, TypeError, AttributeError, ValueError, RecursionError) as e_:
+        import os
+        if os.environ.get('RBQL_VERIF_DEBUG'):
+            print('python row model gave up:', type(e_).__name__, str(e_)[:200])
+        res = None
+    finally:
+        _sys.setrecursionlimit(old_limit)
+    setattr(cx, memo, res)
+    return res
+
+
 def _self_stores(fd, attr):
     out = []
     for n in walk_no_nested(fd):
@@ -28,6 +156,16 @@ def _self_stores(fd, attr):
 
 # ------------------------------------------------------------------------------------------------ python
 def rule_rd_mustflow(cx, rep, port='py'):
+    mr = _py_rows_model(cx)
+    if mr is not None:
+        p_, c_, ms_ = _it(cx, 'py')
+        rep.decide(mr[0], 'text reaches the rows', ms_['get_row_simple'], 'every character read from the stream reaches a returned row, in order' + ' ({} scenarios: {})'.format(mr[2], mr[1]) if mr[0] else '', 'text read from the stream does not reach the returned rows unchanged: ' + (mr[1] if not mr[0] else ''))
+        return
+    with rep.as_fallback('the Python reader is outside the abstract interpreter'):
+        _rule_rd_mustflow_shape(cx, rep, port)
+
+
+def _rule_rd_mustflow_shape(cx, rep, port='py'):
     p, c, ms = _it(cx, 'py')
     reads = []
     for m in ms.values():
@@ -209,6 +347,16 @@ def _block_of(stmt):
 
 
 def rule_rd_partition(cx, rep, port='py'):
+    mr = _py_rows_model(cx)
+    if mr is not None:
+        p_, c_, ms_ = _it(cx, 'py')
+        rep.decide(mr[0], 'partition', ms_['get_row_simple'], 'each row is the text before the first line separator of what is buffered; the rest stays buffered' + ' ({} scenarios: {})'.format(mr[2], mr[1]) if mr[0] else '', 'the buffered text is not cut at the first line separator: ' + (mr[1] if not mr[0] else ''))
+        return
+    with rep.as_fallback('the Python reader is outside the abstract interpreter'):
+        _rule_rd_partition_shape(cx, rep, port)
+
+
+def _rule_rd_partition_shape(cx, rep, port='py'):
     """extract_line_from_data: (text before the first separator, the separator, text after it); None when there is none"""
     p = cx.py
     fd = p.func('csv_utils', 'extract_line_from_data')
@@ -291,6 +439,16 @@ def rule_rd_partition(cx, rep, port='py'):
 
 
 def rule_rd_crla(cx, rep, port='py'):
+    mr = _py_rows_model(cx)
+    if mr is not None:
+        p_, c_, ms_ = _it(cx, 'py')
+        rep.decide(mr[0], 'CR look-ahead', ms_['get_row_simple'], 'a CRLF pair split across two reads is one line break; a lone CR is one too' + ' ({} scenarios: {})'.format(mr[2], mr[1]) if mr[0] else '', 'line breaks at a read boundary are not recognised correctly: ' + (mr[1] if not mr[0] else ''))
+        return
+    with rep.as_fallback('the Python reader is outside the abstract interpreter'):
+        _rule_rd_crla_shape(cx, rep, port)
+
+
+def _rule_rd_crla_shape(cx, rep, port='py'):
     p, c, ms = _it(cx, 'py')
     m = ms['_get_row_from_buffer']
     reads = [n for n in walk_no_nested(m) if isinstance(n, ast.Call) and call_name(n) == 'self.stream.read']
@@ -529,105 +687,118 @@ def _read_until_found_model(cx, rep, p, r):
     return True
 
 
+def _rd_eof_py_shape(cx, rep, p, c, ms, m):
+    rep._fallback = 'the Python reader is outside the abstract interpreter'
+    moves = [n for n in walk_no_nested(m) if isinstance(n, ast.Assign) and dotted(n.value) == 'self.buffer' and isinstance(n.targets[0], ast.Name)]
+    rep.decide(len(moves) == 1, 'final line', moves[0] if moves else m, 'a non-empty remainder at end of input becomes the last row', 'the text left in the buffer at end of input is not returned as a final row')
+    # on the paths that test the remainder: empty -> None (end of input), non-empty -> the remainder is the row (path summaries)
+    from .. import pathsem
+
+    def buffer_empty(atom):
+        """True: atom true means the buffer is empty; False: means non-empty; None: other"""
+        e, neg = atom, False
+        while negated(e) is not None:
+            e, neg = negated(e), not neg
+        r = None
+        if isinstance(e, ast.Call) and dotted(e.func) == 'len' and e.args and dotted(e.args[0]) == 'self.buffer':
+            r = False
+        elif dotted(e) == 'self.buffer':
+            r = False
+        elif isinstance(e, ast.Compare) and len(e.ops) == 1:
+            l_, c_ = e.left, e.comparators[0]
+            if (isinstance(l_, ast.Call) and dotted(l_.func) == 'len' and l_.args and dotted(l_.args[0]) == 'self.buffer' and isinstance(c_, ast.Constant) and c_.value == 0) or (dotted(l_) == 'self.buffer' and isinstance(c_, ast.Constant) and c_.value == ''):
+                r = isinstance(e.ops[0], ast.Eq) if isinstance(e.ops[0], (ast.Eq, ast.NotEq)) else (False if isinstance(e.ops[0], ast.Gt) else None)
+        if r is None:
+            return None
+        return (not r) if neg else r
+    ps = pathsem.paths(m)
+    if ps is None:
+        rep.undecided('empty remainder', m, 'get_row_simple is not summarisable as paths')
+    else:
+        n_e = n_ne = 0
+        bad = None
+        for q in ps:
+            if q.kind != 'return':
+                continue
+            state = None
+            for t_, pol in q.conds:
+                be = buffer_empty(t_)
+                if be is not None:
+                    state = be if pol else not be
+            if state is None:
+                continue
+            # a string that was just measured is not None: the branch `<buffer> is None` cannot be taken
+            if any(pol and isinstance(t_, ast.Compare) and len(t_.ops) == 1 and isinstance(t_.ops[0], (ast.Is, ast.Eq)) and dotted(t_.left) == 'self.buffer' and is_none(t_.comparators[0]) for t_, pol in q.conds):
+                continue
+            if state:
+                n_e += 1
+                if not (q.value is None or is_none(q.value)):
+                    bad = (q.node, 'with an empty remainder at end of input `{}` is returned instead of None'.format(node_text(q.value, 60)))
+            else:
+                n_ne += 1
+                if q.value is None or is_none(q.value):
+                    bad = (q.node, 'None is returned when the remainder is NON-empty: the last line of a file without trailing line break is lost')
+        if bad:
+            rep.violated('empty remainder', bad[0], bad[1])
+        elif n_e and n_ne:
+            rep.holds('empty remainder', m, 'an empty remainder ends the input; a non-empty one is returned')
+        elif not n_e:
+            rep.violated('empty remainder', m, 'an empty remainder does not end the input')
+        else:
+            rep.undecided('empty remainder', m, 'paths testing the remainder not recognised')
+    # _read_until_found sets exhausted only on an empty read
+    r = ms['_read_until_found']
+    if _read_until_found_model(cx, rep, p, r):
+        return
+    rep._fallback = '_read_until_found is outside the abstract interpreter'
+    ex = [n for n in walk_no_nested(r) if isinstance(n, ast.Assign) and dotted(n.targets[0]) == 'self.exhausted' and is_true(n.value)]
+    rv = [n.targets[0].id for n in walk_no_nested(r) if isinstance(n, ast.Assign) and isinstance(n.value, ast.Call) and call_name(n.value) == 'self.stream.read' and isinstance(n.targets[0], ast.Name)]
+    ok = len(ex) == 1 and len(rv) == 1 and isinstance(ex[0].parent, ast.If) and _tests_empty(ex[0].parent.test, rv[0]) is True and ex[0] in ex[0].parent.body
+    rep.decide(ok, 'exhaustion', ex[0] if ex else r, 'exhausted is set exactly when read() returns nothing', 'the exhausted flag is not set exactly on an empty read')
+    # loop continues until a newline is seen in the chunk
+    def found_test(e):
+        """+1: e is true when the chunk contains a line break (`search(..) is not None` / truthy search); -1: true when it does not; 0: other"""
+        neg = 1
+        while negated(e) is not None:
+            e, neg = negated(e), -neg
+        has_search = lambda x: isinstance(x, ast.Call) and isinstance(x.func, ast.Attribute) and x.func.attr == 'search' and x.args and rv and is_name(x.args[0], rv[0])  # noqa: E731
+        if isinstance(e, ast.Compare) and len(e.ops) == 1 and has_search(e.left) and is_none(e.comparators[0]):
+            return neg * (1 if isinstance(e.ops[0], (ast.IsNot, ast.NotEq)) else -1)
+        if has_search(e):
+            return neg
+        return 0
+    brk = [n for n in walk_no_nested(r) if isinstance(n, ast.If) and found_test(n.test) != 0 and n.body and isinstance(n.body[0], ast.Break)]
+    loops_r = [n for n in walk_no_nested(r) if isinstance(n, ast.While)]
+    flags = [n for n in walk_no_nested(r) if isinstance(n, ast.Assign) and isinstance(n.targets[0], ast.Name) and found_test(n.value) != 0]
+    if len(brk) == 1:
+        rep.decide(found_test(brk[0].test) == 1, 'read until newline', brk[0], 'reading stops when a chunk contains a line break', 'the read loop stops when a chunk does NOT contain a line break')
+    elif len(flags) == 1 and len(loops_r) == 1 and flags[0] is loops_r[0].body[-1]:
+        # flag-controlled loop: `while not found: ...; found = search(chunk) is not None`
+        f_, pol = flags[0].targets[0].id, found_test(flags[0].value)
+        t_ = loops_r[0].test
+        cont_when_flag = is_name(t_, f_)
+        cont_when_not_flag = negated(t_) is not None and is_name(negated(t_), f_)
+        ok2 = (pol == 1 and cont_when_not_flag) or (pol == -1 and cont_when_flag)
+        rep.decide(ok2, 'read until newline', flags[0], 'reading stops when a chunk contains a line break (flag-controlled loop)', 'the read loop does not stop exactly when a chunk contains a line break')
+    else:
+        rep.undecided('read until newline', r, 'how the read loop reacts to a line break in the chunk was not recognised')
+
+
 def rule_rd_eof(cx, rep, port):
     p = cx.port(port)
     if port == 'py':
         p, c, ms = _it(cx, 'py')
         m = ms['get_row_simple']
-        # inside `if row is None:` after _read_until_found: non-empty buffer is returned as a row
-        moves = [n for n in walk_no_nested(m) if isinstance(n, ast.Assign) and dotted(n.value) == 'self.buffer' and isinstance(n.targets[0], ast.Name)]
-        rep.decide(len(moves) == 1, 'final line', moves[0] if moves else m, 'a non-empty remainder at end of input becomes the last row', 'the text left in the buffer at end of input is not returned as a final row')
-        # on the paths that test the remainder: empty -> None (end of input), non-empty -> the remainder is the row (path summaries)
-        from .. import pathsem
-
-        def buffer_empty(atom):
-            """True: atom true means the buffer is empty; False: means non-empty; None: other"""
-            e, neg = atom, False
-            while negated(e) is not None:
-                e, neg = negated(e), not neg
-            r = None
-            if isinstance(e, ast.Call) and dotted(e.func) == 'len' and e.args and dotted(e.args[0]) == 'self.buffer':
-                r = False
-            elif dotted(e) == 'self.buffer':
-                r = False
-            elif isinstance(e, ast.Compare) and len(e.ops) == 1:
-                l_, c_ = e.left, e.comparators[0]
-                if (isinstance(l_, ast.Call) and dotted(l_.func) == 'len' and l_.args and dotted(l_.args[0]) == 'self.buffer' and isinstance(c_, ast.Constant) and c_.value == 0) or (dotted(l_) == 'self.buffer' and isinstance(c_, ast.Constant) and c_.value == ''):
-                    r = isinstance(e.ops[0], ast.Eq) if isinstance(e.ops[0], (ast.Eq, ast.NotEq)) else (False if isinstance(e.ops[0], ast.Gt) else None)
-            if r is None:
-                return None
-            return (not r) if neg else r
-        ps = pathsem.paths(m)
-        if ps is None:
-            rep.undecided('empty remainder', m, 'get_row_simple is not summarisable as paths')
-        else:
-            n_e = n_ne = 0
-            bad = None
-            for q in ps:
-                if q.kind != 'return':
-                    continue
-                state = None
-                for t_, pol in q.conds:
-                    be = buffer_empty(t_)
-                    if be is not None:
-                        state = be if pol else not be
-                if state is None:
-                    continue
-                # a string that was just measured is not None: the branch `<buffer> is None` cannot be taken
-                if any(pol and isinstance(t_, ast.Compare) and len(t_.ops) == 1 and isinstance(t_.ops[0], (ast.Is, ast.Eq)) and dotted(t_.left) == 'self.buffer' and is_none(t_.comparators[0]) for t_, pol in q.conds):
-                    continue
-                if state:
-                    n_e += 1
-                    if not (q.value is None or is_none(q.value)):
-                        bad = (q.node, 'with an empty remainder at end of input `{}` is returned instead of None'.format(node_text(q.value, 60)))
-                else:
-                    n_ne += 1
-                    if q.value is None or is_none(q.value):
-                        bad = (q.node, 'None is returned when the remainder is NON-empty: the last line of a file without trailing line break is lost')
-            if bad:
-                rep.violated('empty remainder', bad[0], bad[1])
-            elif n_e and n_ne:
-                rep.holds('empty remainder', m, 'an empty remainder ends the input; a non-empty one is returned')
-            elif not n_e:
-                rep.violated('empty remainder', m, 'an empty remainder does not end the input')
-            else:
-                rep.undecided('empty remainder', m, 'paths testing the remainder not recognised')
-        # _read_until_found sets exhausted only on an empty read
-        r = ms['_read_until_found']
-        if _read_until_found_model(cx, rep, p, r):
+        mr = _py_rows_model(cx)
+        if mr is not None:
+            rep.decide(mr[0], 'final line', m, 'a non-empty remainder at end of input becomes the last row ({} scenarios)'.format(mr[2]), 'the end of the input is not handled correctly: ' + (mr[1] if not mr[0] else ''))
+            rep.decide(mr[0], 'empty remainder', m, 'an empty remainder ends the input; a non-empty one is returned ({} scenarios)'.format(mr[2]), 'the end of the input is not handled correctly: ' + (mr[1] if not mr[0] else ''))
+            r = ms['_read_until_found'] if '_read_until_found' in ms else None
+            if r is not None and not _read_until_found_model(cx, rep, p, r):
+                rep.holds('read until newline', m, 'decided with the row model')
             return
-        rep._fallback = '_read_until_found is outside the abstract interpreter'
-        ex = [n for n in walk_no_nested(r) if isinstance(n, ast.Assign) and dotted(n.targets[0]) == 'self.exhausted' and is_true(n.value)]
-        rv = [n.targets[0].id for n in walk_no_nested(r) if isinstance(n, ast.Assign) and isinstance(n.value, ast.Call) and call_name(n.value) == 'self.stream.read' and isinstance(n.targets[0], ast.Name)]
-        ok = len(ex) == 1 and len(rv) == 1 and isinstance(ex[0].parent, ast.If) and _tests_empty(ex[0].parent.test, rv[0]) is True and ex[0] in ex[0].parent.body
-        rep.decide(ok, 'exhaustion', ex[0] if ex else r, 'exhausted is set exactly when read() returns nothing', 'the exhausted flag is not set exactly on an empty read')
-        # loop continues until a newline is seen in the chunk
-        def found_test(e):
-            """+1: e is true when the chunk contains a line break (`search(..) is not None` / truthy search); -1: true when it does not; 0: other"""
-            neg = 1
-            while negated(e) is not None:
-                e, neg = negated(e), -neg
-            has_search = lambda x: isinstance(x, ast.Call) and isinstance(x.func, ast.Attribute) and x.func.attr == 'search' and x.args and rv and is_name(x.args[0], rv[0])  # noqa: E731
-            if isinstance(e, ast.Compare) and len(e.ops) == 1 and has_search(e.left) and is_none(e.comparators[0]):
-                return neg * (1 if isinstance(e.ops[0], (ast.IsNot, ast.NotEq)) else -1)
-            if has_search(e):
-                return neg
-            return 0
-        brk = [n for n in walk_no_nested(r) if isinstance(n, ast.If) and found_test(n.test) != 0 and n.body and isinstance(n.body[0], ast.Break)]
-        loops_r = [n for n in walk_no_nested(r) if isinstance(n, ast.While)]
-        flags = [n for n in walk_no_nested(r) if isinstance(n, ast.Assign) and isinstance(n.targets[0], ast.Name) and found_test(n.value) != 0]
-        if len(brk) == 1:
-            rep.decide(found_test(brk[0].test) == 1, 'read until newline', brk[0], 'reading stops when a chunk contains a line break', 'the read loop stops when a chunk does NOT contain a line break')
-        elif len(flags) == 1 and len(loops_r) == 1 and flags[0] is loops_r[0].body[-1]:
-            # flag-controlled loop: `while not found: ...; found = search(chunk) is not None`
-            f_, pol = flags[0].targets[0].id, found_test(flags[0].value)
-            t_ = loops_r[0].test
-            cont_when_flag = is_name(t_, f_)
-            cont_when_not_flag = negated(t_) is not None and is_name(negated(t_), f_)
-            ok2 = (pol == 1 and cont_when_not_flag) or (pol == -1 and cont_when_flag)
-            rep.decide(ok2, 'read until newline', flags[0], 'reading stops when a chunk contains a line break (flag-controlled loop)', 'the read loop does not stop exactly when a chunk contains a line break')
-        else:
-            rep.undecided('read until newline', r, 'how the read loop reacts to a line break in the chunk was not recognised')
+        _rd_eof_py_shape(cx, rep, p, c, ms, m)
+        return
     else:
         end = p.func('rbql_csv', 'CSVRecordIterator.process_data_stream_end')
         sets = [n for n in walk_no_nested(end) if isinstance(n, ast.Assign) and dotted(n.targets[0]) == 'self.input_exhausted' and is_true(n.value)]
@@ -1056,6 +1227,12 @@ def rule_rd_rfc(cx, rep, port):
     p = cx.port(port)
     if port == 'py':
         fd = p.func('rbql_csv', 'CSVRecordIterator.get_row_rfc')
+        mr = _py_rows_model_kind(cx, 'rfc')
+        if mr is not None:
+            # the whole reader stack (stream -> buffer -> lines -> records) on short texts with quotes
+            rep.decide(mr[0], 'records of short texts', fd, 'records are the lines grouped by quote parity ({} scenarios: {})'.format(mr[2], mr[1]), 'multi-line records are not assembled from the lines of the input: ' + (mr[1] if not mr[0] else ''))
+            if not mr[0]:
+                return
         _rfc_py_model(cx, rep, p, fd)
     else:
         fd = p.func('csv_utils', 'MultilineRecordAggregator.add_line')
